@@ -49,9 +49,12 @@ func bigExtensions[T any](r *Run, d *Driver[T], cfgs []Cfg, inputs [][]byte, or 
 	})
 }
 
-func c03Big(r *Run, mor Oracles) {
+func c03Big(r0 *Run, mor Oracles) {
 	or := Oracles{Extension: true}
 	few := func(sps []space, idx int) [][]byte { return collectInputs(sps[idx].gen, 120) }
+	// the input sets are those of the quick tier in both tiers (collectInputs materialises a whole trie before it
+	// strides: the thorough tries have 10^8 inputs); r0 runs the cases and collects the results
+	r := &Run{Tier: "quick"}
 	plain := []Cfg{{HdrCap: -1, ValCap: -1}, {HdrCap: 1, ValCap: 1, Offs: 3, Junk: "a"}}
 	var msgs [][]byte
 	for _, m := range longMsgs {
@@ -67,28 +70,28 @@ func c03Big(r *Run, mor Oracles) {
 	for _, f := range []uint{0, uint(sipsp.SIPMsgSkipBodyF), uint(sipsp.SIPMsgCLenReqF)} {
 		mcf = append(mcf, Cfg{Flags: f, HdrCap: -1, ValCap: -1}, Cfg{Flags: f, HdrCap: 2, ValCap: 1, Offs: 3, Junk: "crlf"})
 	}
-	bigExtensions(r, msgDrv, mcf, msgs, mor)
-	bigExtensions(r, flineDrv, plain, few(flineSpaces(r), 0), or)
+	bigExtensions(r0, msgDrv, mcf, msgs, mor)
+	bigExtensions(r0, flineDrv, plain, few(flineSpaces(r), 0), or)
 	hv := []Cfg{{HdrCap: -1, ValCap: -1, WithVals: true}, {HdrCap: -1, ValCap: -1}, {HdrCap: 1, ValCap: 1, WithVals: true, Offs: 3, Junk: "a"}}
-	bigExtensions(r, hdrLineDrv, hv, few(hdrSpaces(r), 1), or)
-	bigExtensions(r, hdrsDrv, hv, few(hdrSpaces(r), 1), or)
+	bigExtensions(r0, hdrLineDrv, hv, few(hdrSpaces(r), 1), or)
+	bigExtensions(r0, hdrsDrv, hv, few(hdrSpaces(r), 1), or)
 	for _, h := range []sipsp.HdrT{sipsp.HdrFrom, sipsp.HdrContact} {
-		bigExtensions(r, nameAddrDrv, []Cfg{{HdrType: int(h), HdrCap: -1, ValCap: -1}}, few(nameAddrSpaces(r), 6), or)
+		bigExtensions(r0, nameAddrDrv, []Cfg{{HdrType: int(h), HdrCap: -1, ValCap: -1}}, few(nameAddrSpaces(r), 6), or)
 	}
-	bigExtensions(r, contactsDrv, []Cfg{{HdrCap: -1, ValCap: -1}, {HdrCap: -1, ValCap: 1}}, few(listSpaces(r), 0), or)
-	bigExtensions(r, paisDrv, []Cfg{{HdrCap: -1, ValCap: -1}}, few(listSpaces(r), 0), or)
-	bigExtensions(r, cseqDrv, plain, few(numSpaces(r), 0), or)
-	bigExtensions(r, callidDrv, plain, few(numSpaces(r), 0), or)
-	bigExtensions(r, uintDrv, plain, few(numSpaces(r), 0), or)
+	bigExtensions(r0, contactsDrv, []Cfg{{HdrCap: -1, ValCap: -1}, {HdrCap: -1, ValCap: 1}}, few(listSpaces(r), 0), or)
+	bigExtensions(r0, paisDrv, []Cfg{{HdrCap: -1, ValCap: -1}}, few(listSpaces(r), 0), or)
+	bigExtensions(r0, cseqDrv, plain, few(numSpaces(r), 0), or)
+	bigExtensions(r0, callidDrv, plain, few(numSpaces(r), 0), or)
+	bigExtensions(r0, uintDrv, plain, few(numSpaces(r), 0), or)
 	var tcf []Cfg
 	for _, f := range tokFlagSets(r) {
 		if f&uint(sipsp.POptInputEndF) == 0 {
 			tcf = append(tcf, Cfg{Flags: f, HdrCap: -1, ValCap: -1})
 		}
 	}
-	bigExtensions(r, tokParamDrv, tcf, few(tokSpaces(r), 1), or)
+	bigExtensions(r0, tokParamDrv, tcf, few(tokSpaces(r), 1), or)
 	ucf := []Cfg{{Flags: 0, ValCap: 2, HdrCap: -1}, {Flags: uint(sipsp.POptTokSpTermF), ValCap: -1, HdrCap: -1}}
-	bigExtensions(r, uriParamsDrv, ucf, few(uriListSpaces(r, false), 0), or)
-	bigExtensions(r, uriHdrsDrv, ucf, few(uriListSpaces(r, true), 0), or)
-	bigExtensions(r, skipQuotedDrv, plain, few(skipQuotedSpaces(r), 0), or)
+	bigExtensions(r0, uriParamsDrv, ucf, few(uriListSpaces(r, false), 0), or)
+	bigExtensions(r0, uriHdrsDrv, ucf, few(uriListSpaces(r, true), 0), or)
+	bigExtensions(r0, skipQuotedDrv, plain, few(skipQuotedSpaces(r), 0), or)
 }
